@@ -985,6 +985,15 @@ fn apply_del(d: &mut DeleteStatement, op: &DelOp, cx: &mut Ctx) {
     }
 }
 
+/// the error's *content* (which kind, both counts), independent of how it prints
+fn canon_err(e: &sea_query::error::Error) -> String {
+    match e {
+        sea_query::error::Error::ColValNumMismatch { col_len, val_len } => {
+            format!("ColValNumMismatch {{ col_len: {}, val_len: {} }}", col_len, val_len)
+        }
+    }
+}
+
 fn apply_ins(i: &mut InsertStatement, op: &InsOp, cx: &mut Ctx) -> Result<(), String> {
     match op {
         InsOp::Replace => {
@@ -1001,7 +1010,7 @@ fn apply_ins(i: &mut InsertStatement, op: &InsOp, cx: &mut Ctx) -> Result<(), St
             let v: Vec<SimpleExpr> = es.iter().map(|e| mat_expr(e, cx)).collect();
             let it = cx.iter(v, *b);
             if let Err(e) = i.values(it) {
-                return Err(format!("{:?}", e));
+                return Err(canon_err(&e));
             }
         }
         InsOp::ValuesPanic(es, b) => {
@@ -1019,7 +1028,7 @@ fn apply_ins(i: &mut InsertStatement, op: &InsOp, cx: &mut Ctx) -> Result<(), St
         InsOp::SelectFrom(s) => {
             let sel = cx.sub_select(s);
             if let Err(e) = i.select_from(sel) {
-                return Err(format!("{:?}", e));
+                return Err(canon_err(&e));
             }
         }
         InsOp::OnConflict(s) => {
